@@ -63,7 +63,86 @@ Definition u_pysem_run_mut (a : val) : val :=
   | _ => bad
   end.
 
-Definition units : list (string * (val -> val)) := [ ("pysem.run", u_pysem_run); ("pysem.run_mut", u_pysem_run_mut) ].
+(* ---- objects: Box (items, n, tag) and the writer W of vlib/pysem_src.py, to exercise attribute stores, receivers that are attribute
+   paths (PyAstMut's place_set) and `with` ---- *)
+Inductive pobj :=
+| OBox (items : list (pv pobj)) (n : Z) (tag : bytes)
+| OW (data : bytes).
+Definition OV := pv pobj.
+Fixpoint to_ov (v : val) : OV :=
+  match v with
+  | Val.VI z => PyWorld.VI z | Val.VB b => PyWorld.VB b | Val.VS s => PyWorld.VS s
+  | Val.VL l => PyWorld.VL (map to_ov l) | Val.VN => PyWorld.VN | Val.VE _ => PyWorld.VN
+  end.
+Fixpoint of_ov (v : OV) : val :=
+  match v with
+  | PyWorld.VI z => Val.VI z | PyWorld.VB b => Val.VB b | PyWorld.VS s => Val.VS s
+  | PyWorld.VL l => Val.VL (map of_ov l) | PyWorld.VT l => Val.VL (map of_ov l)
+  | PyWorld.VN => Val.VN | PyWorld.VO _ => Val.VE TypeError
+  end.
+Definition obj_ext : ext pobj :=
+  {| x_glob := fun _ => None;
+     x_attr := fun a v =>
+       match v with
+       | VO (OBox items n tag) =>
+         if String.eqb a "items" then Some (Ok (PyWorld.VL items)) else if String.eqb a "n" then Some (Ok (PyWorld.VI n))
+         else if String.eqb a "tag" then Some (Ok (PyWorld.VB tag)) else None
+       | _ => None
+       end;
+     x_setattr := fun a o v =>
+       match o, v with
+       | VO (OBox items n tag), PyWorld.VL l => if String.eqb a "items" then Some (Ok (VO (OBox l n tag))) else None
+       | VO (OBox items n tag), PyWorld.VI z => if String.eqb a "n" then Some (Ok (VO (OBox items z tag))) else None
+       | VO (OBox items n tag), PyWorld.VB b => if String.eqb a "tag" then Some (Ok (VO (OBox items n b))) else None
+       | _, _ => None
+       end;
+     x_call := fun f args =>
+       if String.eqb f "Box" then match args with [] => Some (Ok (VO (OBox [] 0 []))) | _ => None end
+       else if String.eqb f "W" then match args with [] => Some (Ok (VO (OW []))) | _ => None end
+       else None;
+     x_meth := fun m r args =>
+       match r with
+       | VO (OW d) =>
+         if String.eqb m "push" then match args with [] => Some (Ok (VO (OW []), r)) | _ => None end
+         else if String.eqb m "put" then match args with [PyWorld.VB b] => Some (Ok (PyWorld.VN, VO (OW (d ++ b)%list))) | _ => None end
+         else if String.eqb m "get" then match args with [] => Some (Ok (PyWorld.VB d, r)) | _ => None end
+         else None
+       | _ => None
+       end;
+     x_truthy := fun _ => Ok true;
+     x_eqb := fun _ _ => None;
+     x_iter := fun _ => Raise TypeError;
+     x_enter := fun v => Ok v;
+     x_exit := fun child owner =>
+       match child, owner with
+       | VO (OW c), Some (VO (OW p)) => Ok (Some (VO (OW (p ++ [91] ++ c ++ [93])%list)))
+       | _, _ => Ok owner
+       end;
+     x_exc := fun _ => None |}.
+Definition mwo : mworld OV :=
+  {| mw_base := std_world obj_ext; mw_call_mut := fun _ _ => None; mw_meth_mut := fun _ _ _ => None |}.
+Definition u_pysem_obj_mut (a : val) : val :=
+  match a with
+  | Val.VL [Val.VS name; Val.VL args] =>
+    match find_flow (string_of_codes name) pysem_flows with
+    | Some f => vres (fun p => of_ov (fst p)) (run_mut mwo 100000 f (map to_ov args))
+    | None => Val.VE KeyError
+    end
+  | _ => bad
+  end.
+(* the first interpreter on the same objects (it writes a receiver back only when it is a local NAME) *)
+Definition u_pysem_obj (a : val) : val :=
+  match a with
+  | Val.VL [Val.VS name; Val.VL args] =>
+    match find_flow (string_of_codes name) pysem_flows with
+    | Some f => vres of_ov (PyAst.run (std_world obj_ext) 100000 f (map to_ov args))
+    | None => Val.VE KeyError
+    end
+  | _ => bad
+  end.
+
+Definition units : list (string * (val -> val)) :=
+  [ ("pysem.run", u_pysem_run); ("pysem.run_mut", u_pysem_run_mut); ("pysem.obj_mut", u_pysem_obj_mut); ("pysem.obj", u_pysem_obj) ].
 
 Fixpoint lookup (n : string) (l : list (string * (val -> val))) : option (val -> val) :=
   match l with
